@@ -69,7 +69,7 @@ def run(ctx, out):
                 "outside the source, dangling (top level and deep), two-link cycles, self links and links to an ancestor; "
                 "-r -L with both drivers; also link OPERANDS (to file / directory, chains, absolute, dangling, cyclic; alone, among "
                 "several sources, onto a new name); a -L copy over the result of an earlier plain copy (links, dangling links, stale files "
-                "where directories must appear); an errno at every readlink of a resolvable tree (exit 0 must still mean: no links); "
+                "where directories must appear); link targets (directories, files, chains; also as operand) on ANOTHER filesystem (/dev/shm); an errno at every readlink of a resolvable tree (exit 0 must still mean: no links); "
                 "destination compared with an independent resolver (os.stat/os.listdir following links) "
                 "and the Gallina walk on the resolved tree; non-trivial = tree contains a link; distinct = (link mix, driver, k)")
     d0 = ctx.work.fresh("c13")
@@ -279,6 +279,64 @@ def run(ctx, out):
                     if left:
                         out.violation("-L exited 0 and left symbolic links in the destination (%s) after a link could not be read" % left[:3], rep)
             shutil.rmtree(d, ignore_errors=True)
+    # links whose targets live on ANOTHER filesystem (a tmpfs): `each link to a directory becomes a directory with the target's
+    # contents` wherever the target is; links to files and chains across the boundary likewise
+    other = "/dev/shm"
+    try:
+        usable = os.access(other, os.W_OK) and os.stat(other).st_dev != os.stat(d0).st_dev
+    except OSError:
+        usable = False
+    if not usable:
+        out.count("other_filesystem_unavailable")
+    else:
+        ext = os.path.join(other, "xcp-verif-c13-%d" % os.getpid())
+        try:
+            for driver in ("parfile", "parblock"):
+                for operand_is_link in (False, True):
+                    k += 1
+                    shutil.rmtree(ext, ignore_errors=True)
+                    os.makedirs(os.path.join(ext, "tree", "deep", "deeper"))
+                    open(os.path.join(ext, "tree", "top.txt"), "wb").write(b"top on the other filesystem")
+                    open(os.path.join(ext, "tree", "deep", "deeper", "leaf.bin"), "wb").write(b"L" * 70000)
+                    open(os.path.join(ext, "file.dat"), "wb").write(b"file on the other filesystem")
+                    os.symlink("tree", os.path.join(ext, "chain"))
+                    d = os.path.join(d0, "x%d" % k)
+                    os.makedirs(os.path.join(d, "src", "sub"))
+                    open(os.path.join(d, "src", "local"), "wb").write(b"local")
+                    os.symlink(os.path.join(ext, "tree"), os.path.join(d, "src", "faraway"))
+                    os.symlink(os.path.join(ext, "file.dat"), os.path.join(d, "src", "sub", "farfile"))
+                    os.symlink(os.path.join(ext, "chain"), os.path.join(d, "src", "sub", "farchain"))
+                    os.symlink(os.path.join(ext, "tree"), os.path.join(d, "oplink"))
+                    os.mkdir(os.path.join(d, "dst"))
+                    argv = [ctx.bins["xcp"], "-r", "-L", "--driver", driver, "-w", "2", "oplink" if operand_is_link else "src", "dst"]
+                    r = xcp.run_plain(argv, d)
+                    out.case(("other-filesystem", driver, operand_is_link), True)
+                    out.count("targets_on_another_filesystem")
+                    rep = dict(kind="link targets on another filesystem (%s)" % other, argv=argv[1:], exit=r.exit, stderr=r.stderr[-200:])
+                    if r.exit == 0:
+                        roots = [os.path.join(d, "dst", "oplink")] if operand_is_link else \
+                            [os.path.join(d, "dst", "src", "faraway"), os.path.join(d, "dst", "src", "sub", "farchain")]
+                        why = None
+                        for rt in roots:
+                            for rel, body in (("top.txt", b"top on the other filesystem"), ("deep/deeper/leaf.bin", b"L" * 70000)):
+                                pth = os.path.join(rt, rel)
+                                if os.path.islink(pth) or not os.path.isfile(pth) or open(pth, "rb").read() != body:
+                                    why = "%s is missing or wrong: the directory the link designates was not copied with its contents" % os.path.relpath(pth, d)
+                        if not operand_is_link:
+                            pth = os.path.join(d, "dst", "src", "sub", "farfile")
+                            if os.path.islink(pth) or not os.path.isfile(pth) or open(pth, "rb").read() != b"file on the other filesystem":
+                                why = "dst/src/sub/farfile is not a regular file with the target's bytes"
+                        for root, dirs, files in os.walk(os.path.join(d, "dst")):
+                            for nme in dirs + files:
+                                if os.path.islink(os.path.join(root, nme)):
+                                    why = "a symbolic link was left in the destination: %s" % os.path.relpath(os.path.join(root, nme), d)
+                        if why:
+                            out.violation("-L exited 0 but " + why, rep)
+                    else:
+                        out.corr("R1-deref-valid-run-failed", rep, "exit 0", r.exit)
+                    shutil.rmtree(d, ignore_errors=True)
+        finally:
+            shutil.rmtree(ext, ignore_errors=True)
     if ctx.model_ok:
         models = treecase.model_walk([(False, True, [], [], b[1]) for b in batch])
         for (rep, tenc, bad), m in zip(batch, models):
